@@ -1,4 +1,5 @@
 import PydraModel.Sched.Interleaved
+import PydraModel.Sched.Rerun
 /-
 C16 — The max_concurrent limit is never exceeded.
 
@@ -64,6 +65,32 @@ theorem C16_full_interleaved {wf : Wf} {k : Nat} {sorted : List NodeId} (hw : We
   have hs := sinv_instantI hw hi
   have hsub : ∀ c, c ∈ running → c ∈ st.futures := fun c hc => hs.lockedPending c (hrun c hc)
   exact Nat.le_trans (hnd.length_le_of_subset hsub) (hs.limit k rfl)
+
+/-! ### submissions over pre-existing results (`Sched/Rerun.lean`) -/
+
+/-- instants of a submission that starts on a cache holding `w0` (any results, successful or errored), with any readonly
+    caches, any `rerun` flag and any old values (`cfg`) -/
+def InstantR (wf : Wf) (k : Option Nat) (sorted : List NodeId) (cfg : RCfg) (w0 : World) (rst : RSt) : Prop :=
+  ∃ sched r0 es, (runAsyncR wf k sorted cfg w0 sched).state? = some r0 ∧ applyEvsR cfg r0 es = some rst
+
+/-- C16, FULL, over pre-existing results: whatever the cache holds at the beginning, with or without `rerun`, at every
+    instant of every schedule at most `max_concurrent` bodies are executing (`executingR` = bodies begun and not ended in
+    this submission: a body begins only inside a pending future, cache hits complete without a body). -/
+theorem C16_rerun {wf : Wf} {k : Nat} {sorted : List NodeId} {cfg : RCfg} {w0 : World} {rst : RSt}
+    (hi : InstantR wf (some k) sorted cfg w0 rst) : (executingR rst).length ≤ k := by
+  obtain ⟨sched, r0, es, h0, h1⟩ := hi
+  exact executingR_le (rinv_applyEvsR es (rinv_runAsyncR sched h0) h1)
+
+/-- the same, bodies counted by their lock on the `cache_root`: every locked checksum is an executing body -/
+theorem C16_rerun_begins_in_future {wf : Wf} {k : Option Nat} {sorted : List NodeId} {cfg : RCfg} {w0 : World} {rst : RSt}
+    (hi : InstantR wf k sorted cfg w0 rst) :
+    (∀ c, c ∈ executingR rst → c ∈ rst.st.futures) ∧ rst.st.futures.Nodup ∧ rst.began.Nodup := by
+  obtain ⟨sched, r0, es, h0, h1⟩ := hi
+  have hr := rinv_applyEvsR es (rinv_runAsyncR sched h0) h1
+  refine ⟨?_, hr.f.futuresNodup, hr.beganNodup⟩
+  intro c hc
+  simp only [executingR, List.mem_filter, Bool.not_eq_true', List.contains_eq_mem, decide_eq_false_iff_not] at hc
+  exact hr.execPending c hc.1 hc.2
 
 /-! ### documentation of the repaired defect D11
 
